@@ -109,7 +109,10 @@ New(r, voc) ==
                  stop |-> "NotStopped", c |-> r.vid, cfgi |-> r.c, bc |-> voc.bc, n |-> voc.n, eos |-> voc.eos,
                  (* every end-of-sequence id of the vocabulary (TokTrie::with_eos_tokens); eos is the primary one *)
                  eosx |-> IF "eosx" \in DOMAIN voc THEN SeqToSet(voc.eosx) ELSE {voc.eos},
-                 canon |-> voc.canon]
+                 canon |-> voc.canon,
+                 (* the grammar neither names tokens nor has a lexeme that ends at EOS (stop=""): then EVERY committed *)
+                 (* end-of-sequence token, primary or not, ends the run                                              *)
+                 eosplain |-> IF "eosplain" \in DOMAIN voc THEN voc.eosplain = 1 ELSE FALSE]
        IN /\ Put(r.e, s)
           /\ PostOk(r, s)
     /\ UNCHANGED <<F, A>>
@@ -267,6 +270,7 @@ Consume(r) ==
             (* EOS ends the run only where the state is accepting; a grammar may also name the   *)
             (* EOS id as an ordinary token (<[...]> ranges), then it is consumed like any other  *)
             /\ r.st = "EndOfSentence" => r.t \in s.eosx
+            /\ (s.eosplain /\ r.t \in s.eosx) => r.st = "EndOfSentence"
             /\ LearnSets({PosFact(s.c, s.hist, r.t)})
             /\ LearnObs({<<StopKey(s, s2.hist), r.st>>})
             /\ Put(r.e, s2) /\ PostOk(r, s2)
